@@ -64,7 +64,7 @@ impl VerifiedDigests {
     //@ rewrite /computed_digests: &BTreeMap<ImmutableFile, HexEncodedDigest>/ => /computed_digests: &ComputedDigests/
     //@ rewrite /for \(immutable_file, digest\) in computed_digests\.iter\(\) \{/ => /for verif_e in it: computed_digests.entries.iter() { let (immutable_file, digest) = (&verif_e.0, &verif_e.1);/
     //@ rewrite /immutable_file\.filename\.clone\(\)/ => /string_clone(&immutable_file.filename)/
-    //@ rewrite /Some\(verified_digest\) if verified_digest != digest =>/ => /Some(verified_digest) if *verified_digest != *digest =>/
+    //@ rewrite /Some\(verified_digest\) if (\w+) != (\w+) =>/ => /Some(verified_digest) if *\1 != *\2 =>/
     //@ rewrite /vec!\[\]/ => /Vec::new()/
     //@ spec ensures
     //@ spec     // nothing reported <==> every computed entry carries the digest the verified list assigns to that very file name
